@@ -13,7 +13,8 @@ from __future__ import annotations
 import itertools
 
 import eqlmc  # noqa: F401
-from entity_query_language import (an, entity, let, infer, symbolic_mode, rule_mode, Add, refinement, alternative, and_)
+from entity_query_language import (an, entity, let, infer, symbolic_mode, rule_mode, Add, refinement, alternative, and_,
+                                   or_)
 
 from .. import worlds as W
 from .. import qast as Q
@@ -113,7 +114,7 @@ def cases(tier, inst):
     for n in range(1, nmax + 1):
         for sh in binary_shapes(n):
             node = label(sh, [0])
-            orders = ("ra", "ar") if has_both(node) else ("ra",)
+            orders = ("ra", "ar", "xa") if has_both(node) else ("ra",)
             if has_alt_chain(node):
                 styles = "F" + ("MLK" if max_alt_chain(node) >= 3 else "")
                 orders = orders + tuple(o + s for o in orders for s in styles)
@@ -134,7 +135,7 @@ def cases(tier, inst):
             for kinds in itertools.product(("x", "y", "xy"), repeat=n):
                 if n == 4 and hash((sh, kinds)) % 3:
                     continue
-                for base_binds in (True, False, "after"):
+                for base_binds in (True, False, "after", "orfirst"):
                     if not base_binds and kinds[0] != "xy":
                         continue         # the base condition itself names both variables, or an explicit comparison does
                     if base_binds == "after" and any(k_ != "x" for k_ in kinds[1:]):
@@ -229,7 +230,11 @@ def kjoin_make_and_eval_twice(case, inst):
                 x, y = let(W.Item, xs), let(W.Item, ys)
                 views = let(W.View)
                 c0 = kcond(kinds[0], 0, x, y, inst)
-                if base_binds == "after":
+                if base_binds == "orfirst":
+                    # a disjunction over both variables first (its first side false, its second side true for every
+                    # pair), then the node's own condition
+                    c0 = and_(or_(x.p > y.p, x.p == y.p), c0)
+                elif base_binds == "after":
                     # the node's own condition first, then a comparison naming both variables (true for every pair)
                     c0 = and_(c0, x.p == y.p)
                 elif base_binds:
@@ -289,6 +294,21 @@ def build_tree(node, x, y, views, order, inst, inner=None):
     if order.startswith("ra"):
         do_ref()
         do_alt()
+    elif order.startswith("xa"):
+        # interleaved: the first alternative written in this block, then the refinement, then the other alternatives
+        if inner is not None:
+            forest, chain = inner
+        elif alt is not None:
+            chain, a = [], alt
+            while a is not None:
+                chain.append(a)
+                a = a[2]
+            forest = chain_forest(len(chain), order[2:])
+        else:
+            forest, chain = [], []
+        write(forest[:1], chain)
+        do_ref()
+        write(forest[1:], chain)
     else:
         do_alt()
         do_ref()
@@ -547,7 +567,8 @@ def describe(case, inst):
         return (f"{'enable' if caching else 'disable'}_caching()\n# rule tree {node} (node = (index, refinement, alternative)); "
                 f"node kinds {kinds}: 'x' = condition x.t[i] == 1, 'y' = y.t[i] == 1, 'xy' = x.t[i] == y.t[i];\n"
                 "# xs, ys = one Item(p=1, t=val) per valuation in {1,2}^n each; q = an(entity(views := let(View), "
-                + ("and_(<condition of node 0>, x.p == y.p)" if base_binds == "after" else
+                + ("and_(or_(x.p > y.p, x.p == y.p), <condition of node 0>)" if base_binds == "orfirst" else
+                   "and_(<condition of node 0>, x.p == y.p)" if base_binds == "after" else
                    ("and_(x.p == y.p, <condition of node 0>)" if base_binds else "<condition of node 0>")) + "));\n"
                 "# nested `with refinement(<cond>)` / `with alternative(<cond>)` blocks as in the tree, conclusions "
                 "Add(views, Made(a=x, b=i+1, c=y))" + {"xy": "", "xalt": "; base and refinements conclude Made(a=x, b=i+1) only",
